@@ -33,6 +33,9 @@ class Target:
         self.nblocks = nblocks
         self.vendor, self.product, self.revision = vendor, product, revision
         self.disk = {}                 # lba -> bytes(blocksize)
+        self.extents = []              # large WRITE SAME ranges: (seq, lba, n, block); resolved by sequence number against self.stamp
+        self.stamp = {}                # lba -> seq of the last single-block write
+        self.seq = 0
         self.script = []               # pending (status, sense) answers; empty -> GOOD
         self.log = []                  # one dict per command received
         self.responder = None          # optional callable(cdb) -> bytes to place into data-in (overrides handlers)
@@ -125,8 +128,15 @@ class Target:
     def _read(self, lba, n, datain):
         if lba + n > self.nblocks:
             return CHECK_CONDITION, fixed_sense(5, 0x21, 0)
-        out = b"".join(self.disk.get(lba + i, self.zero()) for i in range(n))
+        out = b"".join(self.block_at(lba + i) for i in range(n))
         self._fill(datain, out)
+
+    def block_at(self, lba):
+        best_seq, data = self.stamp.get(lba, 0), self.disk.get(lba)
+        for (seq, start, n, block) in self.extents:
+            if start <= lba < start + n and seq > best_seq:
+                best_seq, data = seq, block
+        return data if data is not None else self.zero()
 
     def _write(self, lba, n, dataout):
         if lba + n > self.nblocks:
@@ -134,8 +144,10 @@ class Target:
         data = bytes(dataout) if dataout is not None else b""
         if len(data) < n * self.blocksize:
             return CHECK_CONDITION, fixed_sense(5, 0x26, 0)   # short data-out
+        self.seq += 1
         for i in range(n):
             self.disk[lba + i] = data[i * self.blocksize:(i + 1) * self.blocksize]
+            self.stamp[lba + i] = self.seq
 
     def op_28(self, cdb, dataout, datain):
         return self._read(bits.extract(cdb, 2, 7, 32), bits.extract(cdb, 7, 7, 16), datain)
@@ -165,8 +177,13 @@ class Target:
             if len(data) != self.blocksize:
                 return CHECK_CONDITION, fixed_sense(5, 0x26, 0)
             block = data
-        for i in range(n):
-            self.disk[lba + i] = block
+        self.seq += 1
+        if n > 4096:
+            self.extents.append((self.seq, lba, n, block))
+        else:
+            for i in range(n):
+                self.disk[lba + i] = block
+                self.stamp[lba + i] = self.seq
         # an unmapped block of this target reads back as the data written (LBPRZ=0 semantics are not modelled)
 
     def op_41(self, cdb, dataout, datain):
